@@ -102,8 +102,8 @@ theorem C07_min_det (f : List Q → X) (A : DFTA σ Q) (cls0 cls1 : List Q) (fue
     by its final partition `st`, and whenever that partition passes the congruence certificate
     — which the driver evaluates on the model's final partition in every correspondence run —
     the minimised automaton accepts exactly the trees the input accepts.
-    (That the refinement loop always ends in a partition passing the certificate is Appendix
-    B.3 of DESIGN.md; it is NOT machine-checked here, see meta "explanation".) -/
+    (That the refinement loop always ends in a partition passing the certificate is now
+    proved: `C07_min_cert` below, whence the unconditional `C07_min_lang`.) -/
 theorem C07_min_lang_cert (f : List Q → X) (A : DFTA σ Q) (hd : A.Det) (cls0 cls1 : List Q)
     (fuel : Nat) (M : DFTA σ X) (h : minimiseCore f A cls0 cls1 fuel = some M) :
     ∃ st, minimiseState A cls0 cls1 fuel = some st ∧
